@@ -324,23 +324,31 @@ class Ref:
         if fails:
             raise RFail(fails)
         vals = list(pvals) + list(rvals)
-        # a parameter's string form is inserted as text: braces inside it are literal, never references
-        pv = {nm: str(v).replace("{", "\\{").replace("}", "\\}") for nm, v in zip(names, vals[:len(names)])}
+        # a parameter's string form is inserted as text, whatever it contains (braces, backslashes): it travels through the
+        # substitution of option references as an opaque token and is put in place at the very end
+        token = {nm: f"\x00P{i}\x00" for i, nm in enumerate(names)}
+        ptext = {nm: str(v) for nm, v in zip(names, vals[:len(names)])}
         rv = dict(zip(plain, vals[len(names):]))
+
+        def finish(text):
+            for nm in names:
+                text = text.replace(token[nm], ptext[nm])
+            return text
+
         if not refs:
             return s.replace("\\{", "{").replace("\\}", "}")
 
         def val_of(r):
             if r in rv:
                 return rv[r]
-            return pv[r[1:-1]]
+            return token[r[1:-1]]
 
         if len(refs) == 1 and s == "{" + refs[0] + "}":
-            return str(self.subst(val_of(refs[0]), o))
+            return finish(str(self.subst(val_of(refs[0]), o)))
         out = s
         for r in refs:
             out = out.replace("{" + r + "}", str(val_of(r)))
-        return str(self.subst(out, o))
+        return finish(str(self.subst(out, o)))
 
     def e_tmpl(self, n, o):
         return self.template(n["s"], n["params"], o)
